@@ -11,6 +11,7 @@ import (
 	"fmt"
 	"math/rand"
 	"os"
+	"path/filepath"
 	"regexp"
 	"sort"
 	"strconv"
@@ -306,7 +307,7 @@ type runner struct {
 }
 
 func (rn *runner) restart() error {
-	w, err := drv.StartWorker(rn.bin, rn.dir, drv.StartOpts{Env: []string{"GORACE=halt_on_error=1", "ASAN_OPTIONS=detect_leaks=0"}})
+	w, err := drv.StartWorker(rn.bin, rn.dir, drv.StartOpts{Env: raceEnv(rn.dir)})
 	if err != nil {
 		return fmt.Errorf("server does not restart after a hostile request: %v", err)
 	}
@@ -530,13 +531,64 @@ func panicSite(body string) string {
 	return drv.Hash(b)[:6]
 }
 
+// raceEnv: the race-detector build is there for its pointer checks (checkptr aborts on a hostile input that makes a parser
+// form a bad pointer) - a data race report is written to a log and counted, it must not end the process: the detector
+// stopping the server is not the server dying, and this property is not about unsynchronised accesses.
+func raceEnv(dir string) []string {
+	return []string{"GORACE=halt_on_error=0 log_path=" + filepath.Join(dir, "race"), "ASAN_OPTIONS=detect_leaks=0"}
+}
+
+var (
+	raceMu   sync.Mutex
+	raceSeen = map[string]int{}
+)
+
+var frameRe = regexp.MustCompile(`(?m)^  (github\.com/janelia-flyem/dvid/[^\s(]+)\(`)
+
+// noteRaces folds the data race reports of one hostile run into the evidence (deduplicated by the first DVID frame of
+// the two accesses).
+func noteRaces(c *drv.Ctx, dir string) {
+	files, _ := filepath.Glob(filepath.Join(dir, "race.*"))
+	n := 0
+	for _, f := range files {
+		b, _ := os.ReadFile(f)
+		for _, blk := range strings.Split(string(b), "WARNING: DATA RACE")[1:] {
+			n++
+			parts := strings.SplitN(blk, "Previous ", 2)
+			key := "?"
+			if m := frameRe.FindStringSubmatch(parts[0]); m != nil {
+				key = m[1]
+			}
+			if len(parts) == 2 {
+				if m := frameRe.FindStringSubmatch(parts[1]); m != nil {
+					key += " / " + m[1]
+				}
+			}
+			raceMu.Lock()
+			raceSeen[key]++
+			raceMu.Unlock()
+		}
+	}
+	if n > 0 {
+		c.Count("race_report_blocks", n)
+		raceMu.Lock()
+		var rl []string
+		for k, v := range raceSeen {
+			rl = append(rl, fmt.Sprintf("%s x%d", k, v))
+		}
+		raceMu.Unlock()
+		sort.Strings(rl)
+		c.Extra("race_reports_deduplicated", rl)
+	}
+}
+
 func hostileRun(c *drv.Ctx, bin, flav string, seed int64, idx, perEndpoint int) error {
 	r := rand.New(rand.NewSource(seed))
 	dir, err := c.NewDataDir(fmt.Sprintf("hostile-%s-%d", flav, idx), drv.ConfOpts{})
 	if err != nil {
 		return err
 	}
-	w, err := drv.StartWorker(bin, dir, drv.StartOpts{Env: []string{"GORACE=halt_on_error=1", "ASAN_OPTIONS=detect_leaks=0"}})
+	w, err := drv.StartWorker(bin, dir, drv.StartOpts{Env: raceEnv(dir)})
 	if err != nil {
 		return err
 	}
@@ -547,7 +599,10 @@ func hostileRun(c *drv.Ctx, bin, flav string, seed int64, idx, perEndpoint int) 
 		return fmt.Errorf("setup: %v", err)
 	}
 	rn := &runner{c: c, bin: bin, dir: dir, flav: flav, w: w, wd: wd, target: wd.Root}
-	defer func() { rn.w.Kill() }()
+	defer func() {
+		rn.w.Kill()
+		noteRaces(c, dir)
+	}()
 	// well-formed population first (this is also the "well-formed request" part of C20)
 	for i := 0; i < 25; i++ {
 		if len(wd.H.D.Order) > 1 {
@@ -818,6 +873,15 @@ func run(c *drv.Ctx) error {
 	if !c.Quick() {
 		flavours = []string{"", "race", "asan"}
 	}
+	if fl := os.Getenv("C20_FLAVOURS"); fl != "" { // debugging aid: comma-separated build flavours ("" = plain is written as "plain")
+		flavours = nil
+		for _, f := range strings.Split(fl, ",") {
+			if f == "plain" {
+				f = ""
+			}
+			flavours = append(flavours, f)
+		}
+	}
 	bins := map[string]string{}
 	for _, f := range flavours {
 		b, err := c.Build("dvidw", f)
@@ -838,6 +902,9 @@ func run(c *drv.Ctx) error {
 		}
 		nruns := c.N(2, 16)
 		per := c.N(6, 60)
+		if s := os.Getenv("C20_RUNS"); s != "" { // debugging aid
+			fmt.Sscanf(s, "%d", &nruns)
+		}
 		if f == "checkptr" {
 			nruns, per = 1, 6
 		}
